@@ -15,6 +15,7 @@ import (
 	"net"
 	"os"
 	"sort"
+	"syscall"
 	"time"
 
 	cj "github.com/refraction-networking/conjure/pkg/station/lib"
@@ -23,6 +24,7 @@ import (
 	"github.com/refraction-networking/conjure/pkg/zzverif/venum"
 	"github.com/refraction-networking/conjure/pkg/zzverif/vfix"
 	"github.com/refraction-networking/conjure/pkg/zzverif/vh"
+	"github.com/refraction-networking/conjure/pkg/zzverif/vnet"
 	"github.com/refraction-networking/conjure/pkg/zzverif/vrand"
 	"github.com/refraction-networking/conjure/pkg/zzverif/vsched"
 	pb "github.com/refraction-networking/conjure/proto"
@@ -38,6 +40,7 @@ type probeStream struct {
 
 type probeResult struct {
 	written    int
+	dials      int
 	closes     int
 	closedAt   time.Duration
 	calls      string
@@ -74,6 +77,12 @@ func c03Registry(kind string) *cj.RegistrationManager {
 			p = pp
 		}
 		addReg(rm, regSpec{secret: 1, tt: tt, params: p, valid: true}, c03Phantom)
+	case "validated-after-refusal":
+		// a client connected before its registration was validated: its genuine flight was refused (correctly), the
+		// registration became valid afterwards. Nothing of that refused connection may help the next one.
+		early := regSpec{secret: 1, tt: pb.TransportType_Min, params: gp, valid: false}
+		reg := addReg(rm, early, c03Phantom)
+		c03Late[rm] = &c03LateReg{flight: clientFlight(early), validate: func() { rm.AddRegistration(reg) }}
 	case "mixed3":
 		addReg(rm, regSpec{secret: 1, tt: pb.TransportType_Min, params: gp, valid: true}, c03Phantom)
 		addReg(rm, regSpec{secret: 2, tt: pb.TransportType_Prefix, params: pp, valid: true}, c03Phantom)
@@ -81,6 +90,13 @@ func c03Registry(kind string) *cj.RegistrationManager {
 	}
 	return rm
 }
+
+type c03LateReg struct {
+	flight   []byte
+	validate func()
+}
+
+var c03Late = map[*cj.RegistrationManager]*c03LateReg{}
 
 func runProbe(rm *cj.RegistrationManager, phantom net.IP, segs [][]byte, gaps []time.Duration, draw int64) probeResult {
 	vrand.Script = func(kind string, n int64) (float64, bool) {
@@ -113,7 +129,20 @@ func runProbe(rm *cj.RegistrationManager, phantom net.IP, segs [][]byte, gaps []
 				cm.handleNewTCPConn(rm, pc, phantom)
 				pc.Close() // (the peer went away at once: no virtual time has passed)
 			}
+			if late := c03Late[rm]; late != nil {
+				delete(c03Late, rm)
+				pc := &vconn.Conn{Name: "early-client", Remote: &net.TCPAddr{IP: net.IPv4(198, 51, 100, 10), Port: 40002}, Local: &net.TCPAddr{IP: phantom, Port: 443},
+					In: []vconn.Event{{Data: late.flight}, {Err: io.EOF}}}
+				cm.handleNewTCPConn(rm, pc, phantom)
+				pc.Close()
+				late.validate()
+			}
+			vnet.DialHook = func(network, address string) (net.Conn, error) {
+				res.dials++
+				return nil, &net.OpError{Op: "dial", Net: network, Err: syscall.ECONNREFUSED}
+			}
 			cm.handleNewTCPConn(rm, conn, phantom)
+			vnet.DialHook = nil
 			res.returnedAt = time.Duration(vsched.ClockNanos())
 		}}
 	})
@@ -329,6 +358,9 @@ func c03Judge(id string, r probeResult, derived bool, segs [][]byte, gaps []time
 		}
 		return append(out, [2]string{key, id + ": " + r.detail})
 	}
+	if r.dials != 0 {
+		out = append(out, [2]string{"unauthenticated-connection-proxied", fmt.Sprintf("%s: the station dialed a covert address %d time(s)", id, r.dials)})
+	}
 	if r.written != 0 {
 		out = append(out, [2]string{"bytes-written-to-unauthenticated-peer", fmt.Sprintf("%s: %d bytes written", id, r.written)})
 	}
@@ -425,7 +457,7 @@ func verifC03(a *vh.Args) {
 	e := venum.New(fmt.Sprintf("probes:shard%d/%d", a.ShardI, a.ShardN), a)
 	c03Thorough = a.Thorough()
 	streams := c03Streams(a)
-	regKinds := []string{"none", "unvalidated", "min", "prefix", "obfs4", "mixed3"}
+	regKinds := []string{"none", "unvalidated", "validated-after-refusal", "min", "prefix", "obfs4", "mixed3"}
 	sleepPath := map[string]bool{}
 	n := 0
 	for _, rk := range regKinds {
@@ -484,6 +516,9 @@ func verifC03(a *vh.Args) {
 						goto done
 					}
 					id := fmt.Sprintf("registry=%s;stream=%s;%s;draw=%d", rk, st.name, s.name, draw)
+					if rk == "validated-after-refusal" {
+						rm = c03Registry(rk) // the early client comes first in every case
+					}
 					r := runProbe(rm, c03Phantom, s.segs, s.gaps, draw)
 					rep := c03Replay(id, rk, st, s.segs, s.gaps, draw)
 					for _, v := range c03Judge(id, r, st.derived, s.segs, s.gaps, sleepPath, st.name) {
